@@ -177,7 +177,10 @@ def run_units(pid, units, tier, seed, level, rule, assumptions, extra_cov=None, 
                 dig = ["--digest", base + ".digest"] if u.digest_group else []
                 cmds.append((u.cmd("gen", "--out", base + ".json", "--fail", base + ".fail", *dig), env))
                 meta.append((u, base))
-        results = skv.run_procs(cmds, timeout=max(u.timeout for u in units))
+        tmo = max(u.timeout for u in units)
+        if os.environ.get("VERIF_TIMEOUT"):
+            tmo = int(os.environ["VERIF_TIMEOUT"])      # mutation campaigns: a mutant that makes the library loop forever must not cost an hour
+        results = skv.run_procs(cmds, timeout=tmo)
         stat_files = []; hash_files = []; per_unit = {}
         for (u, base), (rc, out) in zip(meta, results):
             stat_files.append(base + ".json"); hash_files.append(base + ".json.hashes")
